@@ -772,6 +772,24 @@ def check_kernel_mode(sb, kernel, view, key, mod, consts, mode, opts, res, known
                 pv = truth(eval_closed(pre, subs)) if not isinstance(pre, bool) else pre
             else:
                 pv = pre if isinstance(pre, bool) else True
+            if pv is False:
+                # vectors must satisfy the precondition (outside it the real build may execute UB): shrink and retry
+                ok_in = None
+                for kbits in (30, 23, 14, 6, 3):
+                    cand = {}
+                    for (vn, zv, ct) in argset.vars:
+                        v = inputs[vn]
+                        if core.CT[ct][3] == "int":
+                            m = 1 << kbits
+                            v = ((v + m) % (2 * m)) - m if core.signed(ct) else v % m
+                        cand[vn] = v
+                    s2 = subst_list(argset, cand)
+                    if truth(eval_closed(pre, s2)) is True:
+                        ok_in, subs = cand, s2
+                        break
+                if ok_in is None:
+                    continue
+                inputs = ok_in
             for fname, plist in ((kernel.name, paths),) + (((kernel.name + "_ref", ref_paths),) if ref_paths else ()):
                 observed = runner.call(fname, hexargs_for(kernel, inputs))
                 active = None
